@@ -45,7 +45,7 @@ PROPS = {
     "C12": {"title": "each load is independent of every earlier load", "level": "proof",
             "sections": [("pyvc", {}), ("frames", {}), ("lean", {"files": ["Walk.lean"]}), ("witness", {"n_quick": 25, "n_thorough": 150})]},
     "C13": {"title": "read-only operations leave programs unchanged; instances independent", "level": "proof",
-            "sections": [("frames", {}), ("witness", W)]},
+            "sections": [("frames", {}), ("pyvc", {}), ("witness", W)]},
     "C14": {"title": "shipped lexers/parsers recognise exactly the language of blackbird.g4", "level": "other",
             "sections": [("atnk", {"groups": ["identity", "lexer_eq", "parser_eq", "codegen_sim"]})],
             "explanation": "closed obligations over the shipped artefacts (serialized ATNs, .interp, .tokens, g4): carrier identity, tagged-DFA equivalence of the lexer, "
@@ -68,5 +68,5 @@ PROPS = {
                            "contracts showing handlers read only content children; independence of ANTLR's chosen derivation from NEWLINE attachment is assumed "
                            "(A-layout-tree) with a bounded stand-in (witness family layout_edits)"},
     "C19": {"title": "deterministic across runs and hash seeds", "level": "proof",
-            "sections": [("frames", {}), ("witness", {"n_quick": 24, "n_thorough": 200})]},
+            "sections": [("frames", {}), ("pyvc", {}), ("witness", {"n_quick": 24, "n_thorough": 200})]},
 }
